@@ -1110,6 +1110,10 @@ func (h *c18hist) genNav() {
 	} else {
 		idx = h.r.intn(6)
 		fld = pick(h.r, []string{"a", "b", "c", "zz"})
+		if sh.t != nil && sh.t.k == "arr" && h.r.chance(1, 2) {
+			// just past the end of an array, and used right away
+			m, idx, negArr = "idx", sh.t.n+h.r.intn(2), true
+		}
 		if h.negIdx && m == "idx" && h.r.chance(1, 2) {
 			idx = -1 - h.r.intn(2)
 		}
